@@ -349,6 +349,10 @@ func (c *descCtx) call(cc *ssa.CallCommon) string {
 		if f.Signature.Recv() != nil && len(cc.Args) > 0 {
 			return c.d(cc.Args[0]) + "." + p.fnShort(f) + "(" + c.args(cc.Args[1:]) + ")"
 		}
+		if f.String() == "time.Since" && len(cc.Args) == 1 {
+			// time.Since(t) is documented shorthand for time.Now().Sub(t)
+			return "time.Now().Sub(" + c.d(cc.Args[0]) + ")"
+		}
 		return p.CalleeNameOfFunc(f) + "(" + c.args(cc.Args) + ")"
 	case *ssa.Builtin:
 		return f.Name() + "(" + c.args(cc.Args) + ")"
